@@ -243,3 +243,192 @@ package p9p
 //@ ensures never_more: C.msize <= M0
 //@ ensures proposal: err == nil ==> exists f Fcall :: {encFcall(f)} out(C.bwr) == bcat(old(out(C.bwr)), bcat(le4(4 + wireSize(f)), encFcall(f))) && f.Tag == NOTAG && typeis(f.Message, MessageTversion) && f.Message.(MessageTversion).MSize == M0
 //@ ensures adopted: err == nil ==> typeis(REP, MessageRversion) && C.msize == min(M0, REP.(MessageRversion).MSize)
+
+// ---------------------------------------------------------------- sfilesys.go (C08 C13 C14)
+//
+// Abstract view of the fid table: fid f is BOUND iff the sync.Map has an entry for f whose SFid has Ent != nil
+// (an entry with Ent == nil is a reserved placeholder and counts as unbound).
+//
+// Environment contracts (FileSys / Dirent / File / AuthFile are implemented by the user of the library):
+// arbitrary results and errors, but
+//  - they cannot touch the session's fid table or its SFid records (they hold no reference to them),
+//  - resource ledger: released(e) becomes true exactly at Dirent.Clunk, Dirent.Remove and a successful
+//    Dirent.Create on e; entries handed out by FileSys.Attach, Dirent.Walk, Dirent.Create are new objects.
+
+//@ ghost issued bool
+
+//@ macro ONLYREL(e) = forall k int :: {gk(released, k)} k != key(e) ==> gk(released, k) == old(gk(released, k))
+//@ macro SAMEREL = forall k int :: {gk(released, k)} gk(released, k) == old(gk(released, k))
+//@ macro ONLYISS(e) = forall k int :: {gk(issued, k)} k != key(e) ==> gk(issued, k) == old(gk(issued, k))
+//@ macro SAMEISS = forall k int :: {gk(issued, k)} gk(issued, k) == old(gk(issued, k))
+
+//@ iface Dirent.Qid
+//@ modifies nothing
+//@ requires not_released: !released(self)
+
+//@ iface Dirent.Stat
+//@ modifies alloc
+//@ requires not_released: !released(self)
+
+//@ iface Dirent.WStat
+//@ modifies alloc
+//@ requires not_released: !released(self)
+
+//@ iface Dirent.Open
+//@ modifies alloc
+//@ requires not_released: !released(self)
+
+//@ iface Dirent.OpenDir
+//@ modifies alloc
+//@ requires not_released: !released(self)
+
+//@ iface Dirent.Clunk
+//@ modifies released
+//@ requires not_released: !released(self)
+//@ ensures released(self) && ONLYREL(self)
+
+//@ iface Dirent.Remove
+//@ modifies released
+//@ requires not_released: !released(self)
+//@ ensures released(self) && ONLYREL(self)
+
+//@ iface Dirent.Walk
+//@ modifies alloc, issued
+//@ requires not_released: !released(self)
+//@ ensures err == nil && result1 != nil ==> !old(issued(result1)) && issued(result1) && !released(result1) && ONLYISS(result1)
+//@ ensures !(err == nil && result1 != nil) ==> SAMEISS
+
+//@ iface Dirent.Create
+//@ modifies alloc, issued, released
+//@ requires not_released: !released(self)
+//@ ensures err == nil && result0 != nil && result1 != nil ==> !old(issued(result0)) && issued(result0) && !released(result0) && key(result0) != key(self) && ONLYISS(result0) && released(self) && ONLYREL(self)
+//@ ensures !(err == nil && result0 != nil && result1 != nil) ==> SAMEISS && SAMEREL
+
+//@ iface FileSys.Attach
+//@ modifies alloc, issued
+//@ ensures err == nil && result0 != nil ==> !old(issued(result0)) && issued(result0) && !released(result0) && ONLYISS(result0)
+//@ ensures !(err == nil && result0 != nil) ==> SAMEISS
+
+//@ iface FileSys.Auth
+//@ modifies alloc
+//@ iface FileSys.RequireAuth
+//@ modifies nothing
+//@ iface AuthFile.Success
+//@ modifies nothing
+//@ iface File.IOUnit
+//@ modifies nothing
+//@ iface File.Read
+//@ modifies alloc, E:uint8
+//@ ensures onlyWindow("E:uint8", p)
+//@ iface File.Write
+//@ modifies alloc
+
+//@ macro REFS = &sess.refs
+//@ macro R(f) = smval(REFS, f).(*SFid)
+//@ macro BOUND(f) = (smhas(REFS, f) && R(f).Ent != nil)
+//@ macro WF = (sess != nil && sess.fs != nil && (forall f Fid :: {smhas(REFS, f)} smhas(REFS, f) ==> typeis(smval(REFS, f), *SFid) && key(R(f)) > 0 && allocated(R(f))))
+//@ macro INJ = (forall f Fid, g Fid :: {smval(REFS, f), smval(REFS, g)} smhas(REFS, f) && smhas(REFS, g) && f != g ==> R(f) != R(g))
+//@ macro LEDGER = (forall f Fid :: {smhas(REFS, f)} BOUND(f) ==> issued(R(f).Ent) && !released(R(f).Ent))
+//@ macro DISTINCT = (forall f Fid, g Fid :: {smval(REFS, f), smval(REFS, g)} BOUND(f) && BOUND(g) && f != g ==> key(R(f).Ent) != key(R(g).Ent))
+//@ macro QUIET = (lockcount() == 0 && (forall k int :: {gk(held, k)} !gk(held, k)))
+//@ macro SAME(g) = (smhas(REFS, g) == old(smhas(REFS, g)) && smval(REFS, g) == old(smval(REFS, g)) && (smhas(REFS, g) ==> R(g).Ent == old(R(g).Ent) && R(g).File == old(R(g).File) && R(g).Mode == old(R(g).Mode)))
+//@ macro TABLE_SAME = (forall g Fid :: {smhas(REFS, g)} SAME(g))
+//@ macro OTHERS_SAME(x) = (forall g Fid :: {smhas(REFS, g)} g != x ==> SAME(g))
+//@ macro HELD_SAME = (forall g Fid :: {smhas(REFS, g)} old(smhas(REFS, g)) ==> held(old(R(g))) == old(held(R(g))))
+//@ macro HELD_ONLY(x) = (forall g Fid :: {smhas(REFS, g)} old(smhas(REFS, g)) && g != x ==> held(old(R(g))) == old(held(R(g))))
+//@ macro UNLOCKED = ((forall g Fid :: {smhas(REFS, g)} old(smhas(REFS, g)) ==> !held(old(R(g)))) && (forall g Fid :: {smhas(REFS, g)} smhas(REFS, g) ==> !held(R(g))))
+
+//@ func (*session).getRef
+//@ property C08 C13 C14
+//@ requires WF && INJ
+//@ requires no_lock_held: lockcount() == 0 && (smhas(REFS, fid) ==> !held(R(fid)))
+//@ ensures found: err == nil ==> fid != NOFID && smhas(REFS, fid) && result0 == R(fid) && result0.Ent != nil && held(result0) && lockcount() == 1 && HELD_ONLY(fid)
+//@ ensures notfound: err != nil ==> result0 == nil && err == ErrUnknownfid && lockcount() == 0 && HELD_SAME && (fid == NOFID || !BOUND(fid))
+
+//@ func (*session).newRef
+//@ property C08 C13 C14
+//@ requires WF
+//@ ensures reserved: err == nil ==> fid != NOFID && !old(smhas(REFS, fid)) && smhas(REFS, fid) && result0 == R(fid) && result0 != nil && fresh(result0) && result0.Ent == nil && result0.File == nil && held(result0) && lockcount() == old(lockcount()) + 1 && HELD_SAME
+//@ ensures reserved_frame: err == nil ==> (forall g Fid :: {smhas(REFS, g)} g != fid ==> SAME(g))
+//@ ensures refused: err != nil ==> result0 == nil && TABLE_SAME && lockcount() >= old(lockcount()) && HELD_SAME && ((fid == NOFID && err == ErrUnknownfid) || (fid != NOFID && old(smhas(REFS, fid)) && err == ErrDupfid))
+
+//@ macro TABLE = (WF && INJ && LEDGER && DISTINCT)
+
+//@ func (*session).delRef
+//@ property C08 C13 C14
+//@ requires TABLE
+//@ requires no_lock_held: lockcount() == 0 && (smhas(REFS, fid) ==> !held(R(fid)))
+//@ ensures unbound: !smhas(REFS, fid) && OTHERS_SAME(fid)
+//@ ensures inv: TABLE
+//@ ensures unknown: !old(smhas(REFS, fid)) ==> err == ErrUnknownfid && SAMEREL
+//@ ensures placeholder: old(smhas(REFS, fid)) && old(R(fid).Ent) == nil ==> err == nil && SAMEREL
+//@ ensures release: old(BOUND(fid)) ==> released(old(R(fid).Ent)) && ONLYREL(old(R(fid).Ent)) && old(R(fid)).Ent == nil
+//@ ensures locks: lockcount() == 0 && HELD_SAME
+
+//@ func (*session).Clunk
+//@ property C08 C13 C14
+//@ requires TABLE && QUIET
+//@ ensures unbound: !smhas(REFS, fid) && OTHERS_SAME(fid)
+//@ ensures inv: TABLE
+//@ ensures unknown: !old(BOUND(fid)) && !old(smhas(REFS, fid)) ==> err != nil && SAMEREL
+//@ ensures release_once: old(BOUND(fid)) ==> released(old(R(fid).Ent)) && ONLYREL(old(R(fid).Ent))
+//@ ensures release_nothing_else: !old(BOUND(fid)) ==> SAMEREL
+//@ ensures locks: UNLOCKED
+
+//@ func (*session).Remove
+//@ property C08 C13 C14
+//@ requires TABLE && QUIET
+//@ ensures unbound: !smhas(REFS, fid) && OTHERS_SAME(fid)
+//@ ensures inv: TABLE
+//@ ensures unknown: !old(BOUND(fid)) && !old(smhas(REFS, fid)) ==> err != nil && SAMEREL
+//@ ensures release_once: old(BOUND(fid)) ==> released(old(R(fid).Ent)) && ONLYREL(old(R(fid).Ent))
+//@ ensures release_nothing_else: !old(BOUND(fid)) ==> SAMEREL
+//@ ensures locks: UNLOCKED
+
+//@ func (*session).Stat
+//@ property C08 C13 C14
+//@ requires TABLE && QUIET
+//@ ensures table: TABLE_SAME && TABLE && SAMEREL
+//@ ensures unbound_fails: !old(BOUND(fid)) || fid == NOFID ==> err != nil
+//@ ensures locks: UNLOCKED
+
+//@ func (*session).WStat
+//@ property C08 C13 C14
+//@ requires TABLE && QUIET
+//@ ensures table: TABLE_SAME && TABLE && SAMEREL
+//@ ensures unbound_fails: !old(BOUND(fid)) || fid == NOFID ==> err != nil
+//@ ensures locks: UNLOCKED
+
+//@ func (*session).Read
+//@ property C08 C13 C14
+//@ requires TABLE && QUIET
+//@ ensures table: TABLE_SAME && TABLE && SAMEREL
+//@ ensures unbound_fails: !old(BOUND(fid)) || fid == NOFID ==> err != nil
+//@ ensures needs_open_for_read: err == nil ==> old(R(fid).File) != nil && old(R(fid).Mode) & 3 != 1
+//@ ensures locks: UNLOCKED
+
+//@ func (*session).Write
+//@ property C08 C13 C14
+//@ requires TABLE && QUIET
+//@ ensures table: TABLE_SAME && TABLE && SAMEREL
+//@ ensures unbound_fails: !old(BOUND(fid)) || fid == NOFID ==> err != nil
+//@ ensures needs_open_for_write: err == nil ==> old(R(fid).File) != nil && (old(R(fid).Mode) & 3 == 1 || old(R(fid).Mode) & 3 == 2)
+//@ ensures locks: UNLOCKED
+
+//@ func openLocked
+//@ property C08 C13 C14 C17
+//@ requires ref != nil && ref.Ent != nil && !released(ref.Ent)
+//@ ensures failed: err != nil ==> ref.File == old(ref.File) && ref.Mode == old(ref.Mode)
+//@ ensures once: old(ref.File) != nil ==> err != nil
+//@ ensures opened: err == nil ==> old(ref.File) == nil && ref.File != nil && ref.Mode == mode
+//@ ensures frame: ref.Ent == old(ref.Ent) && (forall q *SFid :: {q.File} q != ref ==> q.File == old(q.File) && q.Mode == old(q.Mode))
+
+//@ func (*session).Open
+//@ property C08 C13 C14
+//@ requires TABLE && QUIET
+//@ ensures others: OTHERS_SAME(fid) && TABLE && SAMEREL
+//@ ensures unbound_fails: !old(BOUND(fid)) || fid == NOFID ==> err != nil && TABLE_SAME
+//@ ensures failed: err != nil ==> TABLE_SAME
+//@ ensures once: old(BOUND(fid)) && old(R(fid).File) != nil ==> err != nil
+//@ ensures opened: err == nil ==> old(BOUND(fid)) && old(R(fid).File) == nil && smval(REFS, fid) == old(smval(REFS, fid)) && R(fid).Ent == old(R(fid).Ent) && R(fid).File != nil && R(fid).Mode == mode
+//@ ensures locks: UNLOCKED
